@@ -31,11 +31,14 @@ pub struct FaultyStore<S: Storage> {
     pub reached: Arc<std::sync::atomic::AtomicBool>,
     /// when set, `iter_metadata` performs the scan, raises `reached` and returns only when `gate` is notified
     pub gate_meta: Arc<std::sync::atomic::AtomicBool>,
+    /// when set, the next `multi_get` raises `reached` and reads only after `gate` is notified (a peer's document fetch
+    /// that is overtaken by later mutations of this store)
+    pub gate_fetch: Arc<std::sync::atomic::AtomicBool>,
 }
 
 impl<S: Storage> FaultyStore<S> {
     pub fn new(inner: Arc<S>) -> Self {
-        Self { inner, next: Arc::new(Mutex::new(Directive::None)), gate: Arc::new(tokio::sync::Notify::new()), reached: Arc::new(std::sync::atomic::AtomicBool::new(false)), gate_meta: Arc::new(std::sync::atomic::AtomicBool::new(false)) }
+        Self { inner, next: Arc::new(Mutex::new(Directive::None)), gate: Arc::new(tokio::sync::Notify::new()), reached: Arc::new(std::sync::atomic::AtomicBool::new(false)), gate_meta: Arc::new(std::sync::atomic::AtomicBool::new(false)), gate_fetch: Arc::new(std::sync::atomic::AtomicBool::new(false)) }
     }
 
     fn take(&self) -> Directive {
@@ -185,10 +188,19 @@ impl<S: Storage> Storage for FaultyStore<S> {
     }
 
     async fn get(&self, keyspace: &str, doc_id: Key) -> Result<Option<Document>, Self::Error> {
+        // a fetch of a single document is served by `get`
+        if self.gate_fetch.swap(false, std::sync::atomic::Ordering::SeqCst) {
+            self.reached.store(true, std::sync::atomic::Ordering::SeqCst);
+            self.gate.notified().await;
+        }
         self.inner.get(keyspace, doc_id).await.map_err(wrap)
     }
 
     async fn multi_get(&self, keyspace: &str, doc_ids: impl Iterator<Item = Key> + Send) -> Result<Self::DocsIter, Self::Error> {
+        if self.gate_fetch.swap(false, std::sync::atomic::Ordering::SeqCst) {
+            self.reached.store(true, std::sync::atomic::Ordering::SeqCst);
+            self.gate.notified().await;
+        }
         self.inner.multi_get(keyspace, doc_ids).await.map_err(wrap)
     }
 }
